@@ -145,9 +145,9 @@ fn handle_update_source_file<TCompilationProfile: CompilationProfile>(
                 db.get_current_working_directory(),
                 source_path,
             );
-            if db.remove_iso_literal(source_file_path).is_some() {
-                create_or_update_iso_literals(db, target_path)?
-            }
+            // The target is read even if the source was not tracked, e.g. x.txt -> x.ts
+            db.remove_iso_literal(source_file_path);
+            create_or_update_iso_literals(db, target_path)?
         }
         SourceEventKind::Remove(path) => {
             let interned_file_path = relative_path_from_absolute_and_working_directory(
